@@ -192,6 +192,7 @@ def strat_unfocus(tier):
         'Q': st.one_of(st.sampled_from([1.0, 2.0, 0.5, 1.37]), U.nice_float(0.4, 4).map(lambda v: round(v, 3))),
         'route': st.sampled_from(['fft', 'mdft', 'czt', 'mdft', 'czt']), 'via': st.sampled_from(['function', 'wavefront']),
         'shift': st.one_of(st.just([0, 0]), st.just([0, 0]), st.tuples(st.integers(-6, 6).map(lambda k: k / 2), st.integers(-6, 6).map(lambda k: k / 2)).map(list)),
+        'fdtype': st.sampled_from(['complex128', 'complex128', 'float64', 'float32', 'bool']),
     })
 
 
@@ -204,9 +205,17 @@ def check_unfocus(case, ctx):
     F = np.zeros((my, mx), dtype=complex)
     iy, ix = case['at'][0] % my, case['at'][1] % mx
     F[iy, ix] = 1.0
+    fdt = case.get('fdtype', 'complex128')
     if case['second']:
         r = U.rng_of(case['seed'])
-        F[int(r.integers(0, my)), int(r.integers(0, mx))] += 0.5j
+        F[int(r.integers(0, my)), int(r.integers(0, mx))] += (0.5j if fdt == 'complex128' else 1.0)
+    if fdt != 'complex128':
+        # real-dtype focal fields (an amplitude, a mask): the displaced spot must still unfocus to the tilt of the right sign
+        F = np.ascontiguousarray(F.real).astype(fdt if fdt != 'bool' else np.float64)
+        if fdt == 'bool':
+            F = F > 0
+    ctx.label('focal-dtype:' + fdt)
+    Fn = F.astype(np.complex128)          # numeric values for the oracle
     ctx.label('route:' + route, 'via:' + via, 'square' if my == mx else 'nonsquare', 'two-spots' if case['second'] else 'one-spot')
     ctx.nt((iy != my // 2 or ix != mx // 2) or my != mx)
     xi_x = U.cvec(mx) * dxf
@@ -222,16 +231,16 @@ def check_unfocus(case, ctx):
         norm = 1 / math.sqrt(my * mx)
         if my == mx:
             Y = U.cvec(my) * wo.dx
-            ref = (np.exp(2j * np.pi * np.outer(Y, xi_y) / (lam * efl)) @ F @ np.exp(2j * np.pi * np.outer(xi_x, X) / (lam * efl))) * norm
-            U.check_close(g, ref, 0, 'unfocus:tilt', 'FFT unfocus of impulse at %r in %s' % ([iy, ix], fshape), atol=1e-9 * float(np.abs(F).sum()) * norm)
+            ref = (np.exp(2j * np.pi * np.outer(Y, xi_y) / (lam * efl)) @ Fn @ np.exp(2j * np.pi * np.outer(xi_x, X) / (lam * efl))) * norm
+            U.check_close(g, ref, 0, 'unfocus:tilt', 'FFT unfocus of impulse at %r in %s' % ([iy, ix], fshape), atol=(1e-4 if fdt == 'float32' else 1e-9) * float(np.abs(Fn).sum()) * norm)
         else:
             # x axis only: project along y first (sum over rows of g equals the xi_y = 0 ... not available); use the row
             # of the *input* through xi_y=0 instead: an impulse on that row gives a field constant along y
             ctx.label('fft-nonsquare-x-only')
             if iy == my // 2 and not case['second']:
-                ref_row = (F[iy:iy + 1, :] @ np.exp(2j * np.pi * np.outer(xi_x, X) / (lam * efl))) * norm
+                ref_row = (Fn[iy:iy + 1, :] @ np.exp(2j * np.pi * np.outer(xi_x, X) / (lam * efl))) * norm
                 U.check_close(g, np.broadcast_to(ref_row, g.shape), 0, 'unfocus:tilt:x-only', 'FFT unfocus non-square, impulse on the xi_y=0 row',
-                              atol=1e-9 * norm)
+                              atol=(1e-4 if fdt == 'float32' else 1e-9) * norm)
         return
     py_, px_ = pshape
     if via == 'wavefront':
@@ -256,22 +265,22 @@ def check_unfocus(case, ctx):
         ctx.label('unfocus-shifted')
         ctx.nt(True)
         errs = {}
-        sc = float(np.abs(F).sum()) * norm
+        sc = float(np.abs(Fn).sum()) * norm
         for sgn in (1, -1):
             X = U.cvec(px_) * dxp - sgn * sh[0]
             Y = U.cvec(py_) * dxp - sgn * sh[1]
-            ref = (np.exp(2j * np.pi * np.outer(Y, xi_y) / (lam * efl)) @ F @ np.exp(2j * np.pi * np.outer(xi_x, X) / (lam * efl))) * norm
+            ref = (np.exp(2j * np.pi * np.outer(Y, xi_y) / (lam * efl)) @ Fn @ np.exp(2j * np.pi * np.outer(xi_x, X) / (lam * efl))) * norm
             errs[sgn] = float(np.abs(np.abs(g) - np.abs(ref)).max()) if np.all(np.isfinite(g)) else float('inf')
-        ctx.require(min(errs.values()) <= 1e-9 * sc, 'unfocus_fixed_sampling:' + route + ':shift',
+        ctx.require(min(errs.values()) <= (1e-4 if fdt == 'float32' else 1e-9) * sc, 'unfocus_fixed_sampling:' + route + ':shift',
                     '%s unfocus of %s onto %s (dx %.6g mm) with shift %r mm: modulus is off the explicit inverse sum at the shifted coordinates by %.3g / %.3g (scale %.3g)' % (
                         route, fshape, (py_, px_), dxp, sh, errs[1], errs[-1], sc))
         return
     X = U.cvec(px_) * dxp
     Y = U.cvec(py_) * dxp
-    ref = (np.exp(2j * np.pi * np.outer(Y, xi_y) / (lam * efl)) @ F @ np.exp(2j * np.pi * np.outer(xi_x, X) / (lam * efl))) * norm
+    ref = (np.exp(2j * np.pi * np.outer(Y, xi_y) / (lam * efl)) @ Fn @ np.exp(2j * np.pi * np.outer(xi_x, X) / (lam * efl))) * norm
     U.check_close(g, ref, 0, 'unfocus_fixed_sampling:' + route + (':nonsquare-input' if my != mx else ''),
                   '%s unfocus of impulse at %r in %s (dx %.4g um) onto %s (dx %.6g mm)' % (route, [iy, ix], fshape, dxf, (py_, px_), dxp),
-                  atol=1e-9 * float(np.abs(F).sum()) * norm)
+                  atol=(1e-4 if fdt == 'float32' else 1e-9) * float(np.abs(Fn).sum()) * norm)
 
 
 def strat_scalar(tier):
@@ -299,8 +308,45 @@ def check_scalar(case, ctx):
     ctx.require(abs(q2 * c - q) <= 1e-12 * q and abs(q3 * c - q) <= 1e-12 * q, 'Q_for_sampling:proportionality', 'not inverse-proportional in D / dx')
 
 
+
+def strat_relay(tier):
+    ax = U.axis_len({'quick': 24, 'thorough': 48}[tier], 2)
+    return st.fixed_dictionaries({'n': ax, 'dx': st.sampled_from([0.05, 0.1, 0.5]), 'wvl': st.sampled_from([0.5, 0.6328, 1.55]),
+                                  'f1': st.sampled_from([20.0, 100.0, 1500.0]), 'f2': st.sampled_from([20.0, 100.0, 250.0, 1500.0]),
+                                  'Q': st.sampled_from([1, 2, 3, 1.5]), 'edit_dx': st.sampled_from([1.0, 1.0, 0.5, 2.0]), 'start': st.sampled_from(['pupil', 'psf']),
+                                  'seed': U.seeds})
+
+
+def check_relay(case, ctx):
+    """a wavefront that was already propagated is propagated again with another focal length (a relay), or after its dx
+    attribute was edited: the spacing reported for the new plane is lambda f / (N dx) of the *current* plane and focal length."""
+    from prysm import propagation as P
+    n, dx, lam, f1, f2, Q = case['n'], case['dx'], case['wvl'], case['f1'], case['f2'], case['Q']
+    f = U.field(case['seed'], (n, n), 'complex')
+    ctx.nt(f1 != f2 or case['edit_dx'] != 1.0)
+    ctx.label('start:' + case['start'], 'same-efl' if f1 == f2 else 'other-efl', 'dx-edited' if case['edit_dx'] != 1.0 else 'dx-kept')
+    if case['start'] == 'pupil':
+        w1 = ctx.call(P.Wavefront(f, lam, dx).focus, f1, Q)
+        back = 'unfocus'
+    else:
+        w1 = ctx.call(P.Wavefront(f, lam, dx, space='psf').unfocus, f1, Q)
+        back = 'focus'
+    m = w1.data.shape[1]
+    d1 = lam * f1 / (dx * m)
+    ctx.require(abs(w1.dx - d1) <= 1e-12 * d1, 'relay:first-dx', 'first propagation reports dx=%r, expected %r' % (w1.dx, d1))
+    w1.dx = w1.dx * case['edit_dx']           # public attribute; e.g. a magnification applied by the user
+    w2 = ctx.call(getattr(w1, back), f2, 1)
+    d2 = lam * f2 / (w1.dx * m)
+    ctx.require(abs(w2.dx - d2) <= 1e-12 * d2, 'relay:second-dx',
+                '%s(efl=%g) of a plane with dx=%r (reached with efl=%g) reports dx=%r, physical spacing lambda f/(N dx) = %r' % (back, f2, w1.dx, f1, w2.dx, d2))
+    # and the data of the round trip is the (padded) input field, whatever the focal lengths
+    want = U.embed(f, w1.data.shape)
+    U.check_close(np.asarray(w2.data), want, 0, 'relay:data', 'focus->unfocus relay does not return the field', atol=1e-9 * float(np.abs(f).max()) * n)
+
+
 CLAUSES = [
     HypClause('focus_where_light_lands', strat_focus, check_focus, examples={'quick': 500, 'thorough': 3000}, shards={'quick': 8, 'thorough': 16}),
     HypClause('unfocus_spot_to_tilt', strat_unfocus, check_unfocus, examples={'quick': 400, 'thorough': 3000}, shards={'quick': 4, 'thorough': 16}),
+    HypClause('relay_reported_spacing', strat_relay, check_relay, examples={'quick': 300, 'thorough': 2000}, shards={'quick': 1, 'thorough': 4}),
     HypClause('scalar_laws', strat_scalar, check_scalar, examples={'quick': 500, 'thorough': 5000}, shards={'quick': 1, 'thorough': 4}),
 ]
